@@ -378,6 +378,50 @@ pub fn feeding(r: &mut Rng) -> String {
     s
 }
 
+/// I/O inside nested blocks that the optimiser turns into `if`s or once-loops (bodies that clear or
+/// overwrite their condition), with more I/O after them: an I/O failure inside such a block must end the
+/// whole program, at every nesting depth.
+pub fn io_nest(r: &mut Rng) -> String {
+    fn block(r: &mut Rng, depth: u32, s: &mut String) {
+        // make the condition cell non-zero (mostly), open a block that runs at most once
+        match r.below(3) {
+            0 => s.push(','),
+            1 => s.push_str("+"),
+            _ => s.push_str(",+"),
+        }
+        s.push('[');
+        for _ in 0..1 + r.below(3) {
+            match r.below(5) {
+                0 | 1 => s.push('.'),
+                2 => s.push_str(">,<"),
+                3 => s.push_str(">+.<"),
+                _ => {
+                    if depth < 3 {
+                        s.push('>');
+                        block(r, depth + 1, s);
+                        s.push('<');
+                    } else {
+                        s.push('.');
+                    }
+                }
+            }
+        }
+        // leave with a zero condition: at most one iteration
+        s.push_str(if r.chance(1, 2) { "[-]" } else { "[-]>+<" });
+        s.push(']');
+        if r.chance(1, 2) {
+            s.push_str(">+.<");
+        }
+    }
+    let mut s = String::new();
+    for _ in 0..1 + r.below(3) {
+        block(r, 0, &mut s);
+        s.push_str(if r.chance(1, 2) { "+." } else { ">" });
+    }
+    s.push_str("+.");
+    s
+}
+
 pub fn roaming(r: &mut Rng) -> String {
     let mut s = String::new();
     let segs = 1 + r.below(5);
